@@ -17,6 +17,8 @@ import EinoV.Model.C11Paths
 import EinoV.Proofs.C11Paths
 import EinoV.Model.C11Late
 import EinoV.Proofs.C11Late
+import EinoV.Model.C11Loop
+import EinoV.Proofs.C11Loop
 import EinoV.Gen.FactsC11
 import EinoV.Expected.C11
 
@@ -613,6 +615,103 @@ example :
     (lateRun srcCtx (lateSched.take 7)).holder = some 1 ∧
     allDone (lateRun srcCtx lateSched).core = true ∧ (lateRun srcCtx lateSched).core.shared = 3 := by
   decide
+
+/-! ## a node executed again inside a resumed run (Model/C11Loop.lean)
+
+  "a node's pre-handler runs before it and its post-handler after it, and the values they return
+  are what the node and its successors receive … carried … across interrupt and resume": a graph
+  node whose nested graph interrupted is resumed *without* running its state pre-handler again
+  (it ran before the interrupt); when a cycle of the resumed run leads back to the node, every
+  further execution is an ordinary one — pre-handler, node, post-handler. -/
+
+/-- **skip_mark_per_task.** (source fact tie) `submit` skips the pre-processor on the strength of
+    a bool field of the submitted task, which only `restoreTasks` sets — the value the oracle
+    runs the model with. -/
+theorem skip_mark_per_task : FactsC11.skipPrePerTask = Expected.C11.skipPrePerTask := by decide
+
+/-- **loop_handlers_once_per_execution.** A node of a resumed run that is executed `n + 1` times
+    (execution 0 = the task rebuilt from the checkpoint, `cpSkip` = the checkpoint's
+    `SkipPreHandler` entry of the node; executions 1 … n = tasks created when a cycle leads back to
+    it), for every `n`, next to any other pipelines, under every interleaving and scheduling
+    restriction:
+    * every execution after the restored one is the full pipeline pre-handler, body, post-handler;
+      the restored one lacks the pre-handler exactly when the checkpoint says it already ran;
+    * what the node has committed, in commit order, followed by what it still has to do, is the
+      pipeline of executions 0 … n one after the other (each pre-handler before its body, each
+      post-handler after it, execution k before execution k+1);
+    * once the node is through, the state log holds its pre-handler `n + 1` times (`n` times when
+      the restored execution skipped it) and its post-handler `n + 1` times — one record per
+      execution, none lost, none doubled;
+    * all of them ran under the lock (at most one user function inside at any time). -/
+theorem loop_handlers_once_per_execution (guard : Sys S V → Nat → Bool) (sched : List Nat) (s0 : S)
+    (ths : List (List (Op S V) × V)) (h : NoGetState ths)
+    (t : Nat) (nd : LoopNode S V) (hw : nd.WF) (cpSkip : Bool) (n : Nat) (v0 : V)
+    (ht : ths[t]? = some (loopProg FactsC11.skipPrePerTask cpSkip nd n, v0)) :
+    let fin := run srcLocks.of guard sched (init s0 ths)
+    let done := (evsOf t fin.core.log).map (·.op)
+    (∀ k, 1 ≤ k →
+      execProg FactsC11.skipPrePerTask cpSkip nd k = hOp nd.pre ++ nd.body k ++ hOp nd.post) ∧
+    execProg FactsC11.skipPrePerTask cpSkip nd 0
+      = (if cpSkip then [] else hOp nd.pre) ++ nd.body 0 ++ hOp nd.post ∧
+    done ++ pending fin.core t
+      = (List.range (n + 1)).flatMap (execProg FactsC11.skipPrePerTask cpSkip nd) ∧
+    (pending fin.core t = [] →
+      List.countP isPreOp done = (if nd.pre.isSome then (if cpSkip then n else n + 1) else 0) ∧
+      List.countP isPostOp done = (if nd.post.isSome then n + 1 else 0)) ∧
+    (∀ i j, fin.phase i ≠ .idle → fin.phase j ≠ .idle → i = j) := by
+  intro fin done
+  have hf : FactsC11.skipPrePerTask = true := by decide
+  rw [hf] at ht ⊢
+  have hl := allLocked_of_noGetState wrappers_lock.2 h s0 []
+  have hord : done ++ pending fin.core t = loopProg true cpSkip nd n :=
+    thread_order guard sched s0 ths hl t _ v0 ht
+  refine ⟨?_, ?_, hord, ?_, (mutual_exclusion guard sched s0 ths h).1⟩
+  · intro k hk
+    simp [execProg, skipsPre_later cpSkip hk]
+  · simp only [execProg, skipsPre_restored]
+  · intro hp
+    rw [hp, List.append_nil] at hord
+    rw [hord]
+    exact ⟨countP_pre_loop hw cpSkip n, countP_post_loop hw true cpSkip n⟩
+
+/-- **(negation) A skip mark that is looked up by node key for the whole resumed run takes the
+    pre-handler away from every execution**: for every well-formed node and every number of
+    further executions the pipeline contains no pre-handler operation at all (seeded change
+    C11-52), while the post-handlers are all there. -/
+theorem pre_handler_never_runs_when_skip_is_per_node (nd : LoopNode S V) (hw : nd.WF) (n : Nat) :
+    List.countP isPreOp (loopProg false true nd n) = 0 ∧
+    List.countP isPostOp (loopProg false true nd n) = (if nd.post.isSome then n + 1 else 0) :=
+  ⟨countP_pre_loop_perNode hw n, countP_post_loop hw false true n⟩
+
+/-- a graph node with a numbering pre-handler and a post-handler, its nested graph adding 100 -/
+def loopEx : LoopNode Nat Nat :=
+  { pre := some (.pre, fun s v => (s + 1, 10 * v + s)), body := fun _ => [incOp .process 100],
+    post := some (.post, fun s v => (s + 1, 10 * v + s)) }
+
+/-- **(negation witness)** the node resumed and executed twice more: with the mark on the
+    restored task the two later pre-handlers run (state 305: 2 pre, 3 × 100, 3 post); with the
+    mark per node they do not — their state updates are missing (303) and the nested graph
+    receives the raw value (the final value differs). -/
+theorem pre_handler_update_lost_when_skip_is_per_node :
+    let fin (perTask : Bool) :=
+      (run Expected.C11.locks.of noGuard (List.replicate 36 0)
+        (init 0 [(loopProg perTask true loopEx 2, 1)])).core
+    allDone (fin true) = true ∧ (fin true).shared = 305 ∧
+    allDone (fin false) = true ∧ (fin false).shared = 303 ∧
+    (fin true).threads.map (·.2) ≠ (fin false).threads.map (·.2) ∧
+    List.countP isPreOp (loopProg true true loopEx 2) = 2 ∧
+    List.countP isPreOp (loopProg false true loopEx 2) = 0 := by decide
+
+/-- non-vacuity: `loopEx` is well-formed, and with the fact of the source the run above is the
+    good one -/
+example : loopEx.WF :=
+  ⟨by intro w f h; simp [loopEx] at h; exact .inl h.1.symm,
+   by intro w f h; simp [loopEx] at h; exact .inl h.1.symm,
+   by intro k o ho; simp [loopEx, incOp] at ho; subst ho; exact ⟨rfl, rfl⟩⟩
+
+example :
+    (run srcLocks.of noGuard (List.replicate 36 0)
+      (init 0 [(loopProg FactsC11.skipPrePerTask true loopEx 2, 1)])).core.shared = 305 := by decide
 
 /-! ## node paths and the caller's modifier (Model/C11Paths.lean)
 
